@@ -185,4 +185,32 @@ theorem witness_own_ns (r : TokenRing) (hts : r.ts < 128) (h : NsCoherent r) :
     generalize r.updateLas r.ts r.ns = x at hu hc ht
     exact ⟨hu, hc.congr rfl rfl rfl, ht⟩
 
+open C05 in
+/-- Along a run inside one pass the registered successor never changes, provided the ring view starts
+coherent (`NsCoherent`) with `ring.ts = TS`: every logged transmission carries the same NS. -/
+theorem sameRun_ns {w w' : World} {ins : List PollIn} {txs : List (Nat × Bytes)} (h : SameRun w ins txs w')
+    (hts : w.s.ring.ts = w.s.p.address) (hlt : w.s.p.address < 128) (hc : NsCoherent w.s.ring) :
+    (∀ e ∈ txs, e.1 = w.s.ring.ns) ∧ w'.s.ring.ns = w.s.ring.ns ∧ NsCoherent w'.s.ring ∧
+    w'.s.ring.ts = w'.s.p.address := by
+  induction h with
+  | nil w => exact ⟨fun e he => (by cases he), rfl, hc, hts⟩
+  | cons hp hin hmono hrest ih =>
+    rename_i w w1 w' i tx rest txs
+    obtain ⟨hfr, hcase⟩ := sameRun_step hp hin hmono
+    rcases hcase with ⟨rfl, -, e2⟩ | ⟨rfl, -, e2⟩
+    · obtain ⟨i1, i2, i3, i4⟩ := ih (by rw [e2, hfr]; exact hts) (by rw [hfr]; exact hlt) (by rw [e2]; exact hc)
+      refine ⟨?_, by rw [i2, e2], i3, i4⟩
+      intro e he
+      simp only [Option.toList, List.map_nil, List.nil_append] at he
+      rw [i1 e he, e2]
+    · rw [← hts] at e2
+      obtain ⟨k1, k2, k3⟩ := witness_own_ns w.s.ring (by rw [hts]; exact hlt) hc
+      obtain ⟨i1, i2, i3, i4⟩ := ih (by rw [e2, k3, hfr]; exact hts) (by rw [hfr]; exact hlt) (by rw [e2]; exact k2)
+      refine ⟨?_, by rw [i2, e2, k1], i3, i4⟩
+      intro e he
+      simp only [Option.toList, List.map_cons, List.map_nil, List.cons_append, List.nil_append, List.mem_cons] at he
+      rcases he with rfl | he
+      · rfl
+      · rw [i1 e he, e2, k1]
+
 end PV
